@@ -318,6 +318,145 @@ def rule_decode(rep: Report, repo: Repo) -> None:
               f'word offset 2*len*index (+1 for the jump word) on {n_paths} paths x 24 grid cases', f'{BRK}:{fj.lineno}')
 
 
+# reasoned exceptions of C15.CMD-ESCAPE (function:construct -> why it cannot raise, covering EVERY cause the construct has)
+CMD_ALLOW: Dict[str, str] = {
+    "calculate_variable_value:{'b': 1, 'h': 4, 'B': 8}[variable_type]":
+        'the type letter comes from the regex class [bhBfj]; f / j are turned into a plain word read by handle_read_f_j before this '
+        'function is called (checked: C15.CMD-ESCAPE f/j-filtered)',
+    'handle_read_f_j:variable_prefix[0]': 'guarded by the truth of variable_prefix in the same condition; the prefix is always a 3-tuple',
+    'BreakpointHandler.get_address_str:self.address_to_label[address_before]': 'address_before is max() over keys of the same dictionary',
+    'BreakpointHandler.query_user_for_debug_action:tokens[0]': 'the line is stripped and non-empty (the empty line re-prompts above), so split() has an element',
+    'handle_breakpoint:action[0]': 'query_user_for_debug_action returns 2-tuples only (checked by C15.COMMANDS)',
+}
+
+
+def rule_cmd_escape(rep: Report, repo: Repo) -> None:
+    rep.rule('C15.CMD-ESCAPE', 'no debugger command can end the run with a raw exception: on the call closure of handle_breakpoint every '
+             'implicitly raising construct (subscript, division, shift, int() of typed text) meets a handler that reports instead of '
+             're-raising (in the function, or around every call of it), a dominating guard, or a reasoned exception; and no integer '
+             'of user-chosen size - int(text, 16 / 0), the value of a :bN: / :hN: / :BN: vector - is formatted in decimal (python '
+             'refuses more than 4300 digits) except under such a handler or through hex() / int_to_str()', 20)
+    from ..excflow import GuardFacts, collect_sites, dominating_guards, handler_converts, lexical_handler
+    sub = make_hierarchy(repo)
+    clo = [(rel, q, fn) for rel, q, fn in debugger_closure(repo)]
+    by_short: Dict[str, Tuple[str, str, ast.FunctionDef]] = {q.split('.')[-1]: (rel, q, fn) for rel, q, fn in clo}
+
+    def handled(node: ast.AST, classes: Tuple[str, ...]) -> Optional[str]:
+        h = lexical_handler(node, classes, sub)
+        if h is not None and handler_converts(h, sub) in ('handled', 'library'):
+            return f'HANDLER: except {norm(h.type) if h.type else "*"}'
+        return None
+
+    def callers_handled(q: str, classes: Tuple[str, ...]) -> Optional[str]:
+        short = q.split('.')[-1]
+        sites = [c for _, _, f2 in clo for c in calls(f2) if dotted(c.func).split('.')[-1] == short]
+        if sites and all(handled(c, classes) for c in sites):
+            return f'HANDLER: every one of the {len(sites)} call(s) of {short} is inside a reporting handler'
+        return None
+    # f / j never reach the vector decoder
+    sma = repo.func(BRK, 'show_memory_address')
+    fj_first = False
+    for st in ast.walk(sma):
+        if isinstance(st, ast.Try):
+            names = [dotted(c.func) for x in st.body for c in ast.walk(x) if isinstance(c, ast.Call)]
+            if 'handle_read_f_j' in names and 'calculate_variable_value' in names and names.index('handle_read_f_j') < names.index('calculate_variable_value'):
+                fj_first = True
+    hf = repo.func(BRK, 'handle_read_f_j')
+    fj_none = any(isinstance(i, ast.If) and "variable_prefix[0] in ('f', 'j')" in norm(i.test) and any(norm(x) == 'variable_prefix = None' for x in i.body)
+                  for i in ast.walk(hf))
+    rep.check(fj_first and fj_none, 'C15.CMD-ESCAPE', 'f/j-filtered', f'handle_read_f_j runs first={fj_first}, clears the prefix for f/j={fj_none}',
+              f'{BRK}:{sma.lineno} show_memory_address', expected='f / j prefixes become plain word reads before calculate_variable_value')
+    n = 0
+    for rel, q, fn in clo:
+        for s_ in collect_sites(repo, rel, q, const_names={'w'}):
+            n += 1
+            node = s_.node
+            proof = handled(node, s_.classes) or callers_handled(q, s_.classes)
+            if proof is None and s_.key in CMD_ALLOW:
+                proof = f'ALLOW: {CMD_ALLOW[s_.key]}'
+            if proof is None and s_.kind == 'subscript':
+                gd = GuardFacts(dominating_guards(node))
+                base, key = norm(node.value), norm(node.slice)          # type: ignore[attr-defined]
+                if gd.get(f'{key} in {base}') is True or gd.get(f'{key} not in {base}') is False:
+                    proof = f'GUARD: `{key} in {base}` holds here'
+                elif isinstance(node.slice, ast.Constant) and isinstance(node.slice.value, int) and node.slice.value >= 0 and (     # type: ignore[attr-defined]
+                        gd.get(f'len({base}) > {node.slice.value}') is True or gd.get(f'len({base}) >= {node.slice.value + 1}') is True):   # type: ignore[attr-defined]
+                    proof = f'GUARD: len({base}) > {node.slice.value} holds here'           # type: ignore[attr-defined]
+                else:
+                    # `for k in D` / `for k in tuple(D)[::-1]`: k is a key of D
+                    for a in [x for x in __import__('fjverif.pyfacts', fromlist=['ancestors']).ancestors(node) if isinstance(x, ast.For)]:
+                        if isinstance(a.target, ast.Name) and a.target.id == key and base in norm(a.iter) and not any(
+                                isinstance(c, ast.Call) and dotted(c.func) not in ('tuple', 'list', 'sorted', 'reversed') for c in ast.walk(a.iter)):
+                            proof = f'GUARD: {key} iterates over the keys of {base}'
+            if proof is None and s_.kind == 'binop':
+                right = node.right            # type: ignore[attr-defined]
+                rt = norm(right)
+                if rt in ('w', 'mem.memory_width', 'bits_per_word', 'w.bit_length()') or isinstance(right, ast.Constant):
+                    proof = f'CONST: `{rt}` is the validated memory width / a table constant'
+            rep.check(proof is not None, 'C15.CMD-ESCAPE', s_.key, proof or f'{s_.what} can raise {"/".join(s_.classes)} on what the user typed: the run ends '
+                      f'in the generic failure instead of continuing', f'{rel}:{s_.line()} {q}', expected='a reporting handler, a dominating guard, or a reasoned exception')
+    if n < 15:
+        raise AnalysisError(f'C15.CMD-ESCAPE: only {n} raising constructs found in the debugger closure')
+    # decimal formatting of integers of user-chosen size
+    SAFE = {'hex', 'bin', 'oct', 'int_to_str', 'len'}
+    seeds: Dict[str, Set[str]] = {q: set() for _, q, _ in clo}
+
+    def taint(q: str, fn: ast.FunctionDef) -> Set[str]:
+        t: Set[str] = set(seeds[q])
+        for _ in range(4):
+            for x in walk_no_nested(fn):
+                if not (isinstance(x, ast.Assign) and len(x.targets) == 1):
+                    continue
+                tg, v = x.targets[0], x.value
+                names = [tg.id] if isinstance(tg, ast.Name) else [e.id for e in tg.elts if isinstance(e, ast.Name)] if isinstance(tg, ast.Tuple) else []
+                src = False
+                if isinstance(v, ast.Call) and dotted(v.func) == 'int' and len(v.args) == 2:
+                    src = True                                  # int(text, 16) / int(text, 0): no digit limit on the way in
+                elif isinstance(v, ast.Call) and dotted(v.func).split('.')[-1] == 'calculate_variable_value':
+                    src = True                                  # a vector of user-chosen length
+                elif not (isinstance(v, ast.Call) and dotted(v.func) in SAFE) and any(isinstance(y, ast.Name) and y.id in t for y in ast.walk(v)) \
+                        and isinstance(v, (ast.BinOp, ast.Name, ast.UnaryOp, ast.IfExp)):
+                    src = True
+                if src:
+                    t |= set(names)
+        return t
+    for _ in range(4):
+        for rel, q, fn in clo:
+            t = taint(q, fn)
+            for c in calls(fn):
+                tgt = by_short.get(dotted(c.func).split('.')[-1])
+                if tgt is None or handled(c, ('ValueError',)):
+                    continue
+                params = [a.arg for a in tgt[2].args.args]
+                if params and params[0] == 'self':
+                    params = params[1:]
+                for i_, a in enumerate(c.args):
+                    if i_ < len(params) and isinstance(a, ast.Name) and a.id in t:
+                        seeds[tgt[1]].add(params[i_])
+    n_sinks = 0
+    for rel, q, fn in clo:
+        t = taint(q, fn)
+        for x in walk_no_nested(fn):
+            e = None
+            if isinstance(x, ast.FormattedValue):
+                spec = ''.join(str(v.value) for v in x.format_spec.values if isinstance(v, ast.Constant)) if isinstance(x.format_spec, ast.JoinedStr) else ''
+                if spec[-1:] not in ('x', 'X', 'b', 'o'):
+                    e = x.value
+            elif isinstance(x, ast.Call) and dotted(x.func) in ('str', 'repr') and len(x.args) == 1:
+                e = x.args[0]
+            if e is None or (isinstance(e, ast.Call) and dotted(e.func) in SAFE):
+                continue
+            hot = [y.id for y in ast.walk(e) if isinstance(y, ast.Name) and y.id in t] if isinstance(e, (ast.Name, ast.BinOp, ast.UnaryOp)) else []
+            if not hot:
+                continue
+            n_sinks += 1
+            proof = handled(x, ('ValueError',)) or callers_handled(q, ('ValueError',))
+            rep.check(proof is not None, 'C15.CMD-ESCAPE', f'{q}:decimal {norm(e)[:30]}', proof or f'`{norm(e)[:40]}` can be an integer of any size the user '
+                      f'chooses; formatting it in decimal raises ValueError above 4300 digits', f'{rel}:{x.lineno} {q}',
+                      expected='hex() / int_to_str(), or a reporting ValueError handler')
+    rep.units['cmd_escape'] = dict(raising_constructs=n, decimal_sinks_of_user_sized_ints=n_sinks)
+
+
 def check(rep: Report, repo: Optional[Repo] = None) -> None:
     repo = repo or Repo()
     rep.units = dict(files=[BRK, UQ, RUN_REL], debugger_closure=[q for _, q, _ in debugger_closure(repo)])
@@ -325,15 +464,16 @@ def check(rep: Report, repo: Optional[Repo] = None) -> None:
     rule_commands(rep, repo)
     rule_readonly(rep, repo)
     rule_decode(rep, repo)
+    rule_cmd_escape(rep, repo)
     rep.not_decided.append('equality of output/termination/op count with the undebugged run for all programs and command scripts')
 
 
 MANIFEST = dict(
-    technique='typestate (pause before fetch), command-table agreement, effect/exception analysis of the debugger call closure',
+    technique='typestate (pause before fetch), command-table agreement, effect analysis and exception-escape / integer-formatting analysis of the debugger call closure',
     level_text='Static, structural: the pause test precedes the flip fetch on every path of the featured loop; produced and handled '
                'debugger commands coincide with the documented next-break arithmetic; the debugger closure performs no program-state '
                'write, no device call, and only fault-guarded memory reads; variable decoding uses the stride/offset shared with the '
-               'device adapter. Equality with the undebugged run is not decided.',
+               'device adapter; no command can end the run with a raw exception (every raising construct of the command closure is handled, guarded or reasoned; integers of user-chosen size are never formatted in decimal). Equality with the undebugged run is not decided.',
     level_note='Trusted: CPython ast; fjverif CFG/typestate.',
     design_ref='DESIGN.md section 4 C15',
 )
